@@ -96,6 +96,24 @@ class Ctx:
         self.notes.append(s)
 
 
+def run_rules(ctx, rules):
+    """run each rule function; a missing anchor or a crash in one rule fails that rule closed and the others still run"""
+    import traceback
+    for r in rules:
+        name = getattr(r, '__name__', 'rule')
+        ctx.cur_rule = name
+        try:
+            r(ctx)
+        except AnchorMissing:
+            pass
+        except Exception as e:
+            tb = traceback.format_exc()
+            where = [l.strip() for l in tb.splitlines() if 'File' in l and '/rules/' in l][-1:] or ['?']
+            ctx.fail(name, 'internal|%s' % type(e).__name__, '-',
+                     'rule %s could not analyse the current code (%s: %s at %s): cannot decide, fail closed' % (name, type(e).__name__, str(e)[:200], where[0]), tb[-1500:])
+    ctx.cur_rule = None
+
+
 def load_known():
     p = os.path.join(VERIF, 'known_findings.json')
     if not os.path.exists(p):
@@ -130,6 +148,12 @@ def run_property(prop, tier, module, meta):
             module.run(ctx)
         except AnchorMissing:
             pass
+        except Exception as e:      # a rule that cannot analyse the code must not say "holds"
+            import traceback
+            tb = traceback.format_exc()
+            where = [l.strip() for l in tb.splitlines() if 'File' in l and '/rules/' in l][-1:] or ['?']
+            ctx.fail(ctx.cur_rule or 'engine', 'internal|%s' % type(e).__name__, '-',
+                     'a rule could not analyse the current code (%s: %s at %s): cannot decide, fail closed' % (type(e).__name__, str(e)[:200], where[0]), tb[-1500:])
         cfg_info.append({'config': config, 'features': F.features, 'bodies': F.n_bodies,
                          'tree_hash': info['tree_hash'], 'facts_cached': info['cached']})
         for f in ctx.findings:
